@@ -325,44 +325,37 @@ theorem cleaner_dedup (msg : Str) :
   ⟨dedupAdj_noAdjDup _, fun l => dedupAdj_mem _ l, dedupAdj_sublist _⟩
 
 /-- **cleaner_no_java_noise** — for every message that is not the launcher's "Unable to access jarfile": the
-result is the `\n`-join of lines each of which stems from a line *without* a stack marker (`.java:` / `\tat`),
-and every line with a marker is gone. -/
+result is the `\n`-join of lines none of which carries a stack marker (`.java:` / `\tat`); each of them stems from
+a marker-free line of the input by deleting the exception names, and every line with a marker is gone. -/
 theorem cleaner_no_java_noise (msg : Str) (hjar : isInfix jarfilePhrase msg = false) :
     odkValidate msg = joinWith ['\n'] (cleanLines msg) ∧
-    (∀ l ∈ cleanLines msg, ∃ l0 ∈ cleanupErrors msg, isNoisy l0 = false ∧ l = stripExc l0) ∧
-    cleanLines msg = ((cleanupErrors msg).filter (fun l => !isNoisy l)).map stripExc := by
+    (∀ l ∈ cleanLines msg, isNoisy l = false ∧ ∃ l0 ∈ cleanupErrors msg, isNoisy l0 = false ∧ l = stripExc l0) ∧
+    cleanLines msg = (((cleanupErrors msg).filter (fun l => !isNoisy l)).map stripExc).filter (fun l => !isNoisy l) := by
   refine ⟨by simp [odkValidate, hjar], ?_, ?_⟩
   · intro l hl
     simp only [cleanLines, List.mem_filterMap, removeJava] at hl
     obtain ⟨l0, h0, h1⟩ := hl
     by_cases hn : isNoisy l0 = true
     · simp [hn] at h1
-    · simp only [hn] at h1
-      exact ⟨l0, h0, by simpa using hn, by simpa using h1.symm⟩
+    · by_cases hn2 : isNoisy (stripExc l0) = true
+      · simp [hn, hn2] at h1
+      · simp only [hn, hn2] at h1
+        have hl : l = stripExc l0 := by simpa using h1.symm
+        exact ⟨by rw [hl]; simpa using hn2, l0, h0, by simpa using hn, hl⟩
   · simp only [cleanLines]
     induction cleanupErrors msg with
     | nil => rfl
     | cons x rest ih =>
-      by_cases hn : isNoisy x = true <;> simp [List.filterMap_cons, removeJava, hn, List.filter_cons, ih]
+      by_cases hn : isNoisy x = true
+      · simp [List.filterMap_cons, removeJava, hn, List.filter_cons, ih]
+      · by_cases hn2 : isNoisy (stripExc x) = true <;>
+          simp [List.filterMap_cons, removeJava, hn, hn2, List.filter_cons, ih]
 
-/-- PARTIAL: "no emitted line carries a stack marker" holds when no surviving line begins with one of the
-exception-name prefixes (then `stripExc` is the identity).  The full statement
-`∀ msg, ∀ l ∈ cleanLines msg, isNoisy l = false` is FALSE for the model and for the code: deleting every
-occurrence of a prefix can assemble a marker (finding C18-F1, witness below). -/
-theorem cleaner_no_java_noise_strict_partial (msg : Str)
-    (hpre : ∀ l0 ∈ cleanupErrors msg, stripExc l0 = l0) : ∀ l ∈ cleanLines msg, isNoisy l = false := by
-  intro l hl
-  simp only [cleanLines, List.mem_filterMap, removeJava] at hl
-  obtain ⟨l0, h0, h1⟩ := hl
-  by_cases hn : isNoisy l0 = true
-  · simp [hn] at h1
-  · simp only [hn] at h1
-    have : l = l0 := by rw [← hpre l0 h0]; simpa using h1.symm
-    rw [this]; simpa using hn
-
-/-- witness of C18-F1 on the model: a line without a marker whose cleaned form has one -/
+/-- the shape that used to slip through (finding C18-F1, repaired): the line itself has no marker, its cleaned
+form has one — it is dropped now -/
 example : isNoisy "java.lang.RuntimeException: Foo.javajava.lang.RuntimeException: :12".toList = false ∧
-    isNoisy (stripExc "java.lang.RuntimeException: Foo.javajava.lang.RuntimeException: :12".toList) = true := by
+    isNoisy (stripExc "java.lang.RuntimeException: Foo.javajava.lang.RuntimeException: :12".toList) = true ∧
+    odkValidate "java.lang.RuntimeException: Foo.javajava.lang.RuntimeException: :12\nkept".toList = "kept".toList := by
   decide +kernel
 
 /-- **cleaner_paths_to_refs** — every *delimited* occurrence of a path `/s1/…/sn` (n ≥ 2, segments non-empty and
